@@ -322,19 +322,23 @@ func chainReplay(s *Summary, raw json.RawMessage) {
 		if (sp.gBefore+sp.later)%3 == 2 { // sometimes the outer group has the root prefix: it is a group all the same
 			outerPrefix = "/"
 		}
-		chainRunOnce(s, &c, sp, outerPrefix)
+		chainRunOnce(s, &c, sp, outerPrefix, false)
+		if c.Kind == "route" && (n <= 3 || (sp.inner+sp.variadic)%2 == 1) {
+			// the same chain on a DYNAMIC route of a caching router, observed on the cache hit (second request)
+			chainRunOnce(s, &c, sp, outerPrefix, true)
+		}
 		if c.Kind == "route" && sp.outUse > 0 && chainRunHook == nil {
 			// Use() directly inside a TOP-LEVEL group whose prefix is the root: still the group's middleware, not global
 			for _, op := range []string{"/g", "/", ""} {
 				if op != outerPrefix {
-					chainRunOnce(s, &c, sp, op)
+					chainRunOnce(s, &c, sp, op, false)
 				}
 			}
 		}
 	}
 }
 
-func chainRunOnce(s *Summary, c *chainCase, sp chainSplit, outerPrefix string) {
+func chainRunOnce(s *Summary, c *chainCase, sp chainSplit, outerPrefix string, cachedDyn bool) {
 	n := len(c.Chain)
 	var cur *chainRun
 	hs := make([]rux.HandlerFunc, n)
@@ -343,7 +347,7 @@ func chainRunOnce(s *Summary, c *chainCase, sp chainSplit, outerPrefix string) {
 	}
 	desc := func(aspect, what string) map[string]any {
 		return map[string]any{"kind": "chain", "aspect": aspect, "chain_len": n, "chain_kind": c.Kind,
-			"split": fmt.Sprintf("%+v outer group prefix %q", sp, outerPrefix), "what": what}
+			"split": fmt.Sprintf("%+v outer group prefix %q cached-dynamic-route=%v", sp, outerPrefix, cachedDyn), "what": what}
 	}
 	var r *rux.Router
 	decoyMw := func(cx *rux.Context) { cur.log = append(cur.log, []any{"in", -1, cx.IsAborted()}) } // must never run for /x
@@ -354,6 +358,9 @@ func chainRunOnce(s *Summary, c *chainCase, sp chainSplit, outerPrefix string) {
 		opts := []func(*rux.Router){}
 		if c.Kind == "notallowed" || c.Kind == "na-default" {
 			opts = append(opts, rux.HandleMethodNotAllowed)
+		}
+		if cachedDyn {
+			opts = append(opts, rux.CachingWithNum(2))
 		}
 		r = rux.New(opts...)
 		switch c.Kind {
@@ -383,13 +390,24 @@ func chainRunOnce(s *Summary, c *chainCase, sp chainSplit, outerPrefix string) {
 					for _, h := range inUse { // one Use call per handler: the group chain gets spare capacity
 						r.Use(h)
 					}
-					rt = r.GET("/x", hs[n-1], variadic...)
+					if cachedDyn {
+						rt = r.GET("/x/{id}", hs[n-1], variadic...)
+					} else {
+						rt = r.GET("/x", hs[n-1], variadic...)
+					}
 					// registered AFTER the route, in the same group: must not leak into the chain of /x
 					r.GET("/decoy", nopHandler, decoyMw)
 					r.Use(decoyMw)
 					r.Group("/sub", func() { r.GET("/decoy2", nopHandler) }, decoyMw)
 				}, inner...)
+				// registered after the inner group has returned: only the outer group's middleware applies
+				r.GET("/sib", func(cx *rux.Context) { cur.log = append(cur.log, []any{"in", -3, cx.IsAborted()}) })
 			}, outer...)
+			// registered after the outer group has returned: only the global middleware applies
+			r.GET("/top", func(cx *rux.Context) { cur.log = append(cur.log, []any{"in", -4, cx.IsAborted()}) })
+			if cachedDyn {
+				path += "/7"
+			}
 			if len(later) > 0 {
 				rt.Use(later...)
 			}
@@ -459,11 +477,38 @@ func chainRunOnce(s *Summary, c *chainCase, sp chainSplit, outerPrefix string) {
 		}()
 		return run
 	}
+	if cachedDyn {
+		serve() // the miss fills the cache; what is observed below is the cache hit
+	}
 	run := serve()
 	s.Compared++
 	if chainRunHook != nil { // recorder mode: hand the observation over, compare nothing
 		chainRunHook(run)
 		return
+	}
+	if c.Kind == "route" {
+		// no residue (C12/C04): routes registered after a group has returned must not run the group's middleware
+		mainPath, mainMethod := path, method
+		sibPrefix := outerPrefix
+		if sibPrefix == "/" {
+			sibPrefix = ""
+		}
+		for _, pr := range []struct {
+			path    string
+			allowed int
+			tag     int
+		}{{sibPrefix + "/sib", sp.gBefore + sp.gAfter + sp.outer + sp.outUse, -3}, {"/top", sp.gBefore + sp.gAfter, -4}} {
+			path, method = pr.path, "GET"
+			probe := serve()
+			for _, e := range probe.log {
+				if h, ok := e[1].(int); ok && e[0] == "in" && h > pr.allowed {
+					s.mismatch(desc("enter", fmt.Sprintf("route %s, registered after a group returned, runs handler #%d of the chain of /x (only the first %d belong to its scope): %v",
+						pr.path, h, pr.allowed, probe.log)), c)
+					return
+				}
+			}
+		}
+		path, method = mainPath, mainMethod
 	}
 	want := normLog(c.Log)
 	if c.Kind == "redispatch" {
@@ -626,7 +671,7 @@ func chainExecute(c *chainCase, sp chainSplit) *chainRun {
 	defer func() { chainRunHook = nil }()
 	cc := *c
 	cc.Log, cc.Under, cc.Escaped, cc.CheckW = nil, nil, nil, false
-	chainRunOnce(tmp, &cc, sp, []string{"/g", "/", ""}[(sp.outUse+sp.inner)%3])
+	chainRunOnce(tmp, &cc, sp, []string{"/g", "/", ""}[(sp.outUse+sp.inner)%3], (sp.gBefore+sp.variadic)%3 == 1)
 	return got
 }
 
